@@ -31,9 +31,14 @@ RULE = ('series = integer values x positive integer coordinate steps (scaled by 
         'cases within 1e-9 (relative) of the tolerance boundary are generated only when exact')
 
 
-def _series_da(ys, dxs, coord_kind, yscale, xscale, with_var):
+def _series_da(ys, dxs, coord_kind, yscale, xscale, with_var, origin=0):
     n = len(ys)
     xs_int = np.concatenate([[0], np.cumsum(dxs)]).astype('int64') if n > 1 else np.zeros(1, 'int64')
+    # where the coordinate axis starts: positive, all negative, straddling zero, or ending exactly at 0
+    # (times relative to a trigger are negative; "next after" the largest coordinate must work there too)
+    span = int(xs_int[-1])
+    shift = (0, -span - 11, -(span // 2) - 3, -span - 3)[origin % 4]
+    xs_int = xs_int + shift
     yv = np.asarray(ys, dtype='float64') * yscale
     var = (np.arange(n, dtype='float64') + 1.0) if with_var else None
     data = sc.array(dims=['time'], values=yv, variances=var, unit='Hz')
@@ -64,9 +69,10 @@ def _atol_var(an, ad, coord_kind, yscale, xscale):
 
 def _run_find(ctx, tid, ys, dxs, an, ad, minn, coord_kind, yscale=1.0, xscale=1.0, with_var=False,
               minn_as_var=False):
+    origin = tid // 3   # decorrelated from the coordinate kind (tid % 3)
     from scippneutron.chopper import filtering
 
-    da, xs_int = _series_da(ys, dxs, coord_kind, yscale, xscale, with_var)
+    da, xs_int = _series_da(ys, dxs, coord_kind, yscale, xscale, with_var, origin)
     snapshot = da.copy(deep=True)
     atol = _atol_var(an, ad, coord_kind, yscale, xscale)
     ev = {'ev': 'find', 'tid': tid, 'ys': list(map(int, ys)), 'dxs': list(map(int, dxs)), 'an': an,
